@@ -20,6 +20,13 @@ func genPos(gr *genRun) string {
 }
 
 func (gr *genRun) probe(rule, key string, fs geneval.FileSpec, opts []geneval.Options) {
+	gr.probeMay(rule, key, fs, opts, false)
+}
+
+// probeMay: with mayRefuse, an error from Generate discharges the option set —
+// the property is about the schemas Generate accepts; what it emits for them
+// must compile, and refusing is the other way of keeping that promise.
+func (gr *genRun) probeMay(rule, key string, fs geneval.FileSpec, opts []geneval.Options, mayRefuse bool) {
 	for _, o := range opts {
 		gf := gr.ga.G.GenerateSpec(fs, o)
 		gr.c.Count("probe_files", 1)
@@ -28,6 +35,9 @@ func (gr *genRun) probe(rule, key string, fs geneval.FileSpec, opts []geneval.Op
 			return
 		}
 		if gf.GenErr != "" {
+			if mayRefuse {
+				continue
+			}
 			gr.c.Check(rule, key, genPos(gr), false, "Generate refuses the schema: "+gf.GenErr)
 			return
 		}
@@ -84,6 +94,27 @@ func probeLowercaseNames(c *core.Ctx, gr *genRun) {
 	gr.probe("R3", "deprecation message with a line break", geneval.FileSpec{GoPackage: "example.com/x/gen", Structs: []geneval.Value{stDepr}, Enums: []geneval.Value{enDepr}}, twoOpts())
 	gr.probe("R3", "readonly struct with upper-case field names", geneval.FileSpec{GoPackage: "example.com/x/gen", Structs: []geneval.Value{
 		b.Struct("Ro", true, 0, geneval.FieldSpec{Name: "Field", Shape: S("string")}, geneval.FieldSpec{Name: "other", Shape: geneval.Arr(S("date"))})}}, twoOpts())
+	// names that are words of Go: a readonly struct keeps its fields unexported
+	// (the schema's spelling), private definitions keep the record's
+	gr.probe("R3", "readonly struct with fields named like Go keywords", geneval.FileSpec{GoPackage: "example.com/x/gen", Structs: []geneval.Value{
+		b.Struct("Kw", true, 0, geneval.FieldSpec{Name: "type", Shape: S("int32")}, geneval.FieldSpec{Name: "range", Shape: S("string")})}}, geneval.AllOptions())
+	gr.probe("R3", "records named like Go keywords", geneval.FileSpec{GoPackage: "example.com/x/gen", Structs: []geneval.Value{
+		b.Struct("range", false, 0, geneval.FieldSpec{Name: "a", Shape: S("int32")})},
+		Messages: []geneval.Value{b.Message("func", 0, geneval.NumField{Num: 1, FieldSpec: geneval.FieldSpec{Name: "a", Shape: S("int32")}})}}, geneval.AllOptions())
+	gr.probeMay("R3", "fields named like the generated methods are refused or emitted under another name", geneval.FileSpec{GoPackage: "example.com/x/gen", Structs: []geneval.Value{
+		b.Struct("Clash", false, 0, geneval.FieldSpec{Name: "Size", Shape: S("int32")}, geneval.FieldSpec{Name: "size", Shape: S("int32")})},
+		Messages: []geneval.Value{b.Message("ClashM", 0, geneval.NumField{Num: 1, FieldSpec: geneval.FieldSpec{Name: "MarshalBebop", Shape: S("int32")}})}}, geneval.AllOptions(), true)
+	gr.probeMay("R3", "a message field named like a generated method", geneval.FileSpec{GoPackage: "example.com/x/gen",
+		Messages: []geneval.Value{b.Message("ClashM", 0, geneval.NumField{Num: 1, FieldSpec: geneval.FieldSpec{Name: "decodeBebop", Shape: S("int32")}})}}, geneval.AllOptions(), true)
+	gr.probeMay("R3", "a union branch field named like a generated method", geneval.FileSpec{GoPackage: "example.com/x/gen",
+		Unions: []geneval.Value{b.Union("ClashU", 0, geneval.Branch{Num: 1, Struct: b.Struct("ClashB", false, 0, geneval.FieldSpec{Name: "encodeBebop", Shape: S("int32")})})}}, geneval.AllOptions(), true)
+	gr.probeMay("R3", "two fields whose names differ in the case of the first letter", geneval.FileSpec{GoPackage: "example.com/x/gen",
+		Structs: []geneval.Value{b.Struct("CaseF", false, 0, geneval.FieldSpec{Name: "a", Shape: S("int32")}, geneval.FieldSpec{Name: "A", Shape: S("int32")})}}, geneval.AllOptions(), true)
+	gr.probeMay("R3", "two definitions whose names differ in the case of the first letter", geneval.FileSpec{GoPackage: "example.com/x/gen",
+		Structs: []geneval.Value{b.Struct("caseD", false, 0, geneval.FieldSpec{Name: "a", Shape: S("int32")})},
+		Messages: []geneval.Value{b.Message("CaseD", 0, geneval.NumField{Num: 1, FieldSpec: geneval.FieldSpec{Name: "a", Shape: S("int32")}})}}, geneval.AllOptions(), true)
+	gr.probe("R3", "a readonly struct field named like a generated method", geneval.FileSpec{GoPackage: "example.com/x/gen",
+		Structs: []geneval.Value{b.Struct("RoClash", true, 0, geneval.FieldSpec{Name: "Size", Shape: S("int32")})}}, geneval.AllOptions())
 }
 
 // probeImports: the import list must match what the body uses.
